@@ -75,6 +75,9 @@ pub struct WorldCfg {
 	pub p_inline_wrap: u8,
 	pub p_pois_coll: u8,
 	pub p_copy_permuted: u8,
+	/// chance that a by-reference member is an empty (zero-sized) owned collection
+	/// located at the address of some leaf
+	pub p_zst_member: u8,
 	pub max_members: usize,
 	pub allow_dups: bool,
 	/// chance (per by-reference collection) that duplicates are left in even when
@@ -100,6 +103,7 @@ impl Default for WorldCfg {
 			p_inline_wrap: 30,
 			p_pois_coll: 30,
 			p_copy_permuted: 60,
+			p_zst_member: 0,
 			max_members: 5,
 			allow_dups: false,
 			p_allow_dup: 0,
@@ -270,6 +274,10 @@ pub fn gen_world(src: &mut Src<'_>, cfg: &WorldCfg) -> WorldSpec {
 					}
 				}
 				if cands.is_empty() {
+					continue;
+				}
+				if cfg.p_zst_member > 0 && !w.leaves.is_empty() && src.chance(cfg.p_zst_member) {
+					cand_seq.push(MemberSpec::EmptyOwnedAt(src.pick(w.leaves.len())));
 					continue;
 				}
 				let k = src.pick(cands.len());
